@@ -237,7 +237,7 @@ func run(ctx *core.Ctx) error {
 	}
 
 	// 4. the reader on trees the Writer did not produce (foreign.go)
-	fouts, err := runForeign(ctx, shapes, ctx.Pick(1, 2), ctx.Pick(20, 40), ctx.Pick(20, 40))
+	fouts, nForeign, err := runForeign(ctx, shapes, ctx.Pick(1, 2), ctx.Pick(20, 40), ctx.Pick(20, 40))
 	if err != nil {
 		return err
 	}
@@ -255,7 +255,7 @@ func run(ctx *core.Ctx) error {
 		fIsBad[b] = true
 		if kind := nullClass(fouts[b].c); kind != "" && classified >= 3 {
 			// same class as records already classified with TLC's clause verdict
-			ctx.Violation("pagetree-reader/null-entry/"+kind, "pagetree reader: an inheritable attribute spelled \"/Key null\" masks the inherited value (further record of this class)", map[string]any{"foreign": fouts[b].c})
+			note(ctx, "pagetree-reader/null-entry/"+kind, "further record of this class", fouts[b].c)
 			continue
 		}
 		if classified < 10 {
@@ -263,9 +263,8 @@ func run(ctx *core.Ctx) error {
 			if err := reportForeign(ctx, fouts[b]); err != nil {
 				return err
 			}
-		} else if classified == 10 {
-			classified++
-			ctx.Violation("pagetree-reader/more", fmt.Sprintf("%d rejected reader records in all (not all classified)", len(fbad)), map[string]any{"foreign": fouts[b].c})
+		} else {
+			note(ctx, "pagetree-reader/unclassified", fmt.Sprintf("%d rejected reader records in all, only the first ones are classified by clause", len(fbad)), fouts[b].c)
 		}
 	}
 	var fstat = map[string]int{}
@@ -297,7 +296,16 @@ func run(ctx *core.Ctx) error {
 			fstat["judged_with_indirect_attribute_values"]++
 		}
 	}
+	fstat["rejected_by_tlc"] = len(fbad)
+	fstat["foreign_trees_read"] = nForeign
 	ctx.Ev.Set("reader_on_foreign_trees", fstat)
+	notes.mu.Lock()
+	ext := map[string]int{}
+	for k, v := range notes.counts {
+		ext[k] = v
+	}
+	notes.mu.Unlock()
+	ctx.Ev.Set("extension_findings", ext)
 	ctx.Ev.Set("shapes_from_tlc", len(shapes))
 	for _, o := range fouts {
 		if o.c.Update == "insert" && len(o.c.Nodes) <= 8 {
